@@ -36,6 +36,14 @@ func (v VC) join(o VC) VC {
 	return n
 }
 
+// pathOverlap: one dotted index path is the other or an ancestor of it (".1" and ".12" are unrelated).
+func pathOverlap(a, b string) bool {
+	if len(a) > len(b) {
+		a, b = b, a
+	}
+	return strings.HasPrefix(b, a) && (len(a) == len(b) || b[len(a)] == '.')
+}
+
 type accRec struct {
 	tid   int
 	clk   int
@@ -84,7 +92,7 @@ func (w *World) access(t *Thread, p Ptr, write bool) {
 	me := accRec{t.id, t.vc[t.id], w.accSite(t), write}
 	happensBefore := func(a *accRec) bool { return a.tid == t.id || a.clk <= t.vc[a.tid] }
 	for path, ai := range p.o.acc {
-		if !(strings.HasPrefix(path, p.path) || strings.HasPrefix(p.path, path)) {
+		if !pathOverlap(path, p.path) {
 			continue
 		}
 		if ai.lastW != nil && !happensBefore(ai.lastW) {
@@ -116,6 +124,45 @@ func (w *World) access(t *Thread, p Ptr, write bool) {
 		}
 		ai.reads = append(ai.reads, me)
 	}
+}
+
+// accessAtomic records an operation of a synchronisation primitive living at p (WaitGroup.Add/Done/Wait): it
+// conflicts with an unordered plain write of that memory, never with other such operations.
+func (w *World) accessAtomic(t *Thread, p Ptr) {
+	if !w.raceOn || t == nil || p.o == nil || p.o.typ == nil {
+		return
+	}
+	name := p.o.label
+	if name == "" {
+		name = fieldName(p.o.typ, idxs(p.path))
+		if !w.eng.raceTracked(name) {
+			return
+		}
+	}
+	if p.o.acc == nil {
+		p.o.acc = map[string]*accInfo{}
+	}
+	me := accRec{t.id, t.vc[t.id], w.accSite(t) + "(sync-op)", false}
+	for path, ai := range p.o.acc {
+		if !pathOverlap(path, p.path) {
+			continue
+		}
+		if ai.lastW != nil && !(ai.lastW.tid == t.id || ai.lastW.clk <= t.vc[ai.lastW.tid]) {
+			w.reportRace(name, ai.lastW, &me)
+		}
+	}
+	ai := p.o.acc[p.path]
+	if ai == nil {
+		ai = &accInfo{}
+		p.o.acc[p.path] = ai
+	}
+	for i := range ai.reads {
+		if ai.reads[i].tid == t.id {
+			ai.reads[i] = me
+			return
+		}
+	}
+	ai.reads = append(ai.reads, me)
 }
 
 func (w *World) reportRace(field string, a, b *accRec) {
